@@ -338,6 +338,8 @@ def run_cbmc(u, harness, hdefs, unwind, unwindset, safety, timeout, witness=Fals
         cmd.append('-DWITNESS')
     if reduced:
         cmd.append('-DFSV_FP_REDUCED')
+    if safety and not witness:
+        cmd.append('-DFSV_SAFETY_ONLY')
     cmd += CBMC_BASE
     if safety:
         cmd += SAFETY
